@@ -1,5 +1,7 @@
 import PlcModel.Lex
 import PlcModel.Lsp
+import PlcModel.Graph
+import PlcModel.Analyze
 
 /-!
 # plcdrv: line protocol driver for the executable model
@@ -96,6 +98,138 @@ def handleLsp (ws : List String) : String :=
     let code := match r.phase with | .exited c => s!"exit:{c}" | .running => "running"
     " ".intercalate (r.outs.map showOut ++ [code])
 
+/-! ### C07: `c07 fb:<n>:<r1>,<r2>… alias:<n>:<b> struct:<n>:<r1>,…` → `P0010` | `-` -/
+
+def parseNats (s : String) : Option (List Nat) :=
+  if s.isEmpty then some [] else
+  (s.splitOn ",").foldr (fun w acc => match w.toNat?, acc with
+    | some n, some l => some (n :: l)
+    | _, _ => none) (some [])
+
+def parseDecl (s : String) : Option Decl :=
+  match s.splitOn ":" with
+  | ["fb", n, rs] => do let n ← n.toNat?; let rs ← parseNats rs; pure (.fb n rs)
+  | ["alias", n, b] => do let n ← n.toNat?; let b ← b.toNat?; pure (.alias n b)
+  | ["struct", n, rs] => do let n ← n.toNat?; let rs ← parseNats rs; pure (.struct n rs)
+  | _ => none
+
+def handleC07 (ws : List String) : String :=
+  match ws.foldr (fun w acc => match parseDecl w, acc with
+      | some d, some l => some (d :: l)
+      | _, _ => none) (some []) with
+  | none => "bad-arg"
+  | some ds => if rejectsRecursive ds then "P0010" else "-"
+
+/-! ### abstract compilation units: `unit <decl> <decl> | <decl> … | X`
+files are separated by `|`; `X` is a file that does not parse.  Declarations:
+`E:<n>:<v,v,…>:<dflt|->`  `A:<n>:<base>`  `S:<n>:<e.t,e.t,…>`  `R:<n>:<lo>:<hi>`
+`F|U|P:<n>:<vars>:<stmts>`  `C:<n>:<vars>:<t,t,…>:<inst.task|-.type,…>`
+var = `name.cls.const.ty.init` (cls v i o x e g; const 0 1; ty b i n<k>; init `-` or number);
+stmt = `a.<target>.<r+r+…>` | `c.<inst>.<f=v+f=v>.<p+p>.<o=t+o=t>`; negative numbers `m5`. -/
+
+def splitNE (s : String) (sep : String) : List String := if s.isEmpty then [] else s.splitOn sep
+
+def optAll {α β} (f : α → Option β) (l : List α) : Option (List β) :=
+  l.foldr (fun x acc => match f x, acc with | some y, some ys => some (y :: ys) | _, _ => none) (some [])
+
+def parseTy (s : String) : Option Ty :=
+  match s.toList with
+  | ['b'] => some .bool
+  | ['i'] => some .int
+  | 'n' :: ds => (String.ofList ds).toNat?.map Ty.named
+  | _ => none
+
+def parseCls (s : String) : Option VCls :=
+  match s with
+  | "v" => some .var | "i" => some .input | "o" => some .output | "x" => some .inout
+  | "e" => some .external | "g" => some .global | _ => none
+
+def parseOptNat (s : String) : Option (Option Nat) :=
+  if s == "-" then some none else s.toNat?.map some
+
+def parseVar (s : String) : Option AVar :=
+  match s.splitOn "." with
+  | [n, c, k, t, i] => do
+    let n ← n.toNat?; let c ← parseCls c; let t ← parseTy t; let i ← parseOptNat i
+    pure { name := n, cls := c, const := k == "1", ty := t, init := i }
+  | _ => none
+
+def parsePair (s : String) : Option (Nat × Nat) :=
+  match s.splitOn "=" with
+  | [a, b] => do let a ← a.toNat?; let b ← b.toNat?; pure (a, b)
+  | _ => none
+
+def parseStmt (s : String) : Option AStmt :=
+  match s.splitOn "." with
+  | ["a", t, rhs] => do
+    let t ← t.toNat?; let rs ← optAll String.toNat? (splitNE rhs "+")
+    pure (.assign t rs)
+  | ["c", i, f, p, o] => do
+    let i ← i.toNat?
+    let f ← optAll parsePair (splitNE f "+")
+    let p ← optAll String.toNat? (splitNE p "+")
+    let o ← optAll parsePair (splitNE o "+")
+    pure (.call i f p o)
+  | _ => none
+
+def parseInt' (s : String) : Option Int :=
+  match s.toList with
+  | 'm' :: ds => (String.ofList ds).toNat?.map fun n => -(n : Int)
+  | _ => s.toNat?.map fun n => (n : Int)
+
+def parseProgInst (s : String) : Option AProgInst :=
+  match s.splitOn "." with
+  | [n, t, ty] => do
+    let n ← n.toNat?; let t ← parseOptNat t; let ty ← ty.toNat?
+    pure { name := n, task := t, ty := ty }
+  | _ => none
+
+def parseADecl (s : String) : Option ADecl :=
+  match s.splitOn ":" with
+  | ["E", n, vs, d] => do
+    let n ← n.toNat?; let vs ← optAll String.toNat? (splitNE vs ","); let d ← parseOptNat d
+    pure (.enumT n vs d)
+  | ["A", n, b] => do let n ← n.toNat?; let b ← b.toNat?; pure (.enumAlias n b)
+  | ["S", n, es] => do
+    let n ← n.toNat?
+    let es ← optAll (fun e => match e.splitOn "." with
+      | [a, t] => do let a ← a.toNat?; let t ← parseTy t; pure (a, t)
+      | _ => none) (splitNE es ",")
+    pure (.structT n es)
+  | ["R", n, lo, hi] => do let n ← n.toNat?; let lo ← parseInt' lo; let hi ← parseInt' hi; pure (.subrangeT n lo hi)
+  | [k, n, vs, ss] =>
+    if k == "F" || k == "U" || k == "P" then do
+      let n ← n.toNat?
+      let vs ← optAll parseVar (splitNE vs ",")
+      let ss ← optAll parseStmt (splitNE ss ",")
+      pure (if k == "F" then .fb n vs ss else if k == "U" then .func n vs ss else .prog n vs ss)
+    else none
+  | ["C", n, vs, ts, ps] => do
+    let n ← n.toNat?
+    let vs ← optAll parseVar (splitNE vs ",")
+    let ts ← optAll String.toNat? (splitNE ts ",")
+    let ps ← optAll parseProgInst (splitNE ps ",")
+    pure (.config n vs ts ps)
+  | _ => none
+
+/-- split the words of a `unit` request into files -/
+def splitFiles : List String → List String → List (List String) → List (List String)
+  | [], cur, acc => (acc ++ [cur])
+  | w :: ws, cur, acc => if w == "|" then splitFiles ws [] (acc ++ [cur]) else splitFiles ws (cur ++ [w]) acc
+
+def parseFile (ws : List String) : Option AFile :=
+  if ws == ["X"] then some { parseError := true, decls := [] }
+  else (optAll parseADecl ws).map fun ds => { parseError := false, decls := ds }
+
+def showGroups (g : Groups) : String :=
+  if g.isEmpty then "OK" else
+  "ERR " ++ " ".intercalate (g.map fun alt => "|".intercalate (alt.map toString))
+
+def handleUnit (ws : List String) : String :=
+  match optAll parseFile (splitFiles (ws.filter (!·.isEmpty)) [] []) with
+  | none => "bad-arg"
+  | some files => showGroups (semantic files)
+
 def handle (line : String) : String :=
   match line.trimAscii.toString.splitOn " " with
   | ["lex", h] =>
@@ -113,6 +247,8 @@ def handle (line : String) : String :=
         | some d => ",".intercalate (d.map toString))
     | none => "bad-arg"
   | "lsp" :: ws => handleLsp ws
+  | "c07" :: ws => handleC07 ws
+  | "unit" :: ws => handleUnit ws
   | _ => "bad-op"
 
 partial def loop (h : IO.FS.Stream) (out : IO.FS.Stream) : IO Unit := do
